@@ -35,6 +35,8 @@ def cases(tier, seed):
         yield {"fam": "boundary", "i": i}
     for i in range(24 if tier == "quick" else 200):
         yield {"fam": "semantic_boundary", "i": i}
+    for i in range(6 if tier == "quick" else 48):
+        yield {"fam": "huge_labels", "i": i}
 
 
 def setup(ctx):
@@ -135,6 +137,23 @@ def run(case, ctx):
         dtype = [np.uint8, np.uint16, np.uint32, np.uint64][i % 4]
         pred, refa, f = gen.random_pair(ctx.seed, i, dtype=dtype)
         ctx.count("f:family." + f)
+    elif fam == "huge_labels":
+        # label values beyond 2^24, label maps not in ascending order of the prediction labels
+        r = gen.rng(ctx.seed, "c04huge", i)
+        dtype = [np.uint32, np.uint64][i % 2]
+        pl = [int(x) for x in r.choice(np.arange(2**24, 2**24 + 2**20), size=4, replace=False)] + [3]
+        rl = [2, 1, int(2**24 + 5), 7]
+        r.shuffle(pl)
+        refa = np.zeros(40, dtype=dtype)
+        pred = np.zeros(40, dtype=dtype)
+        for k, (a, b) in enumerate(zip(pl[:4], rl)):
+            refa[8 * k : 8 * k + 6] = b
+            pred[8 * k + (k % 2) : 8 * k + 6] = a
+        pred[36:38] = pl[4]
+        ths = {"IOU": [0.5], "DSC": [0.5], "ASSD": [1.0]}
+        ctx.count("f:C04.labels_beyond_2^24")
+        run_pair(ctx, pred, refa, fam, thresholds=ths, metrics=("IOU",) if i % 2 else ("DSC",))
+        return
     elif fam == "boundary":
         pred, refa = boundary_pair(ctx.seed, i)
         ths = {"IOU": [0.5], "DSC": [0.5], "ASSD": [0.5]}
